@@ -284,7 +284,7 @@ func cmdCheck(args []string) {
 	if cfg == nil {
 		fatal(fmt.Errorf("property %s not configured", *prop))
 	}
-	findings := loadFindings(filepath.Join(*outDir, "known_findings.txt"))
+	findings := loadFindings("/verif/known_findings.txt")
 	for _, k := range findings {
 		if !k.Fixed && k.When != nil && k.Func != "" {
 			if KnownWhen[k.Func] == nil {
@@ -752,6 +752,9 @@ func cmdCheck(args []string) {
 	if len(violations) > 0 {
 		for _, v := range violations {
 			fmt.Println(v)
+		}
+		if *keep == "" {
+			os.RemoveAll(scratch)
 		}
 		os.Exit(1)
 	}
